@@ -196,6 +196,47 @@ class WithItemsMethod:
         return self.stock.items()
 
 
+@dataclasses.dataclass
+class DCGetItem:
+    """a structured object with by-name subscription (obj["host"]): not a sequence, not a mapping -- its items are its fields"""
+    host: str = "localhost"
+    port: int = 80
+
+    def __getitem__(self, k):
+        return getattr(self, k)
+
+
+class SlotsGetItem:
+    __slots__ = ("x", "y")
+
+    def __init__(self, x, y):
+        self.x, self.y = x, y
+
+    def __getitem__(self, k):
+        return getattr(self, k if isinstance(k, str) else self.__slots__[k])      # by name or by position
+
+
+class VarsGetItem:
+    def __init__(self, owner, balance):
+        self.owner, self.balance = owner, balance
+
+    def __getitem__(self, k):
+        return vars(self)[k]
+
+
+@dataclasses.dataclass
+class RecordLike:
+    """supports ** unpacking (keys() + __getitem__) without being a Mapping: still a structured object"""
+    retries: int = 0
+    verbose: bool = False
+
+    def keys(self):
+        return ["retries", "verbose"]
+
+    def __getitem__(self, k):
+        return getattr(self, k)
+
+
 class UnresolvedHints:
     """an annotation names something that does not exist at runtime (an import under TYPE_CHECKING): the hints cannot be resolved,
     the constructor's parameters are NOT the fields -- the fields are what the instance holds"""
@@ -526,6 +567,9 @@ FACTORIES = {
     "VarsNoArgs": (VarsNoArgs, ["p", "q"]),
     "UnresolvedHints": (lambda: UnresolvedHints("bob:hello"), ["sender", "subject"]),
     "WithItemsMethod": (lambda: WithItemsMethod("bob", {"nut": 3}), ["owner", "stock"]),
+    "DCGetItem": (lambda: DCGetItem(), ["host", "port"]), "DCGetItem-pairfirst": (lambda: DCGetItem("ab", (1, 2)), ["host", "port"]),
+    "SlotsGetItem": (lambda: SlotsGetItem(1, (1, 2)), ["x", "y"]), "VarsGetItem": (lambda: VarsGetItem("ann", 10), ["owner", "balance"]),
+    "RecordLike": (lambda: RecordLike(3, True), ["retries", "verbose"]),
     "UnresolvedHintsSlots": (lambda: UnresolvedHintsSlots("ab:(1, 2)"), ["sender", "subject"]),
     "Empty": (Empty, []),
     "AnnClassVar": (lambda: AnnClassVar((1, 2), "ab"), ["a", "b"]),
